@@ -454,3 +454,50 @@ def settle(ctx, tag, cases, bad_model, bad_spec, what_model):
                    "cases on which model and implementation disagree although the spec verdict passes: %s; first: %s"
                    % (only_model[:10], json.dumps(cases[only_model[0]].get("descr", ""), default=str)[:600] if only_model else ""))
     ctx.extra.setdefault("disagreements", {})[tag] = {"model": len(bad_model), "spec": len(bad_spec)}
+
+
+# ----------------------------------------------------------------------------- tie by translation (t_pycore)
+TIE_FILES = {   # tie file -> functions of pyerrors/obs.py it needs regenerated
+    "Tie_expand_deltas.v": ["_expand_deltas"],
+    "Tie_merge.v": ["_expand_deltas_for_merge", "_merge_idx"],
+    "Tie_inter.v": ["_intersection_idx"],
+}
+
+
+def tie_pycore(ctx, tie_files):
+    """Regenerate the named helper functions of pyerrors/obs.py as Gallina definitions (translate/t_pycore.py), compile them and
+    re-prove the tie theorems `regenerated definition = hand-written model` (coq/props/Tie_*.v).  Every theorem is an obligation of
+    the calling check; a construct outside the translator's subset or a proof that no longer goes through is a broken tie."""
+    from translate import t_pycore
+    funcs = []
+    for tf in tie_files:
+        for f in TIE_FILES[tf]:
+            if f not in funcs:
+                funcs.append(f)
+    sigs = [sg for sg in t_pycore.SIGS if sg["coq"] in funcs]
+    ctx.trusted.append("translate/t_pycore.py (Python subset -> Gallina, fail-closed) and the meaning it gives Python operations (coq/theories/Py/Prim.v); "
+                       "regenerated this run: " + ", ".join(funcs))
+    ok_all = True
+    done = []
+    # one generated file per function, so that an edit to one helper breaks only the ties that mention it
+    with open(os.path.join(REPO, "pyerrors", "obs.py")) as fh:
+        src = fh.read()
+    try:
+        text, done = t_pycore.translate_source(src, only=funcs)
+    except t_pycore.TranslateError as e:
+        ctx.obligation("T-pycore:translate obs.py", False, str(e))
+        return False
+    except SyntaxError as e:
+        ctx.obligation("T-pycore:parse obs.py", False, str(e))
+        return False
+    path = ctx.write("PyGen.v", text)
+    ok, _, _ = ctx.compile_obligation("gen/PyGen.v", path)
+    if not ok:
+        return False
+    for tf in tie_files:
+        dst = os.path.join(ctx.gendir, tf)
+        shutil.copy(os.path.join(PROPS, tf), dst)
+        ok, _, _ = ctx.compile_obligation("props/" + tf, dst)
+        ok_all = ok_all and ok
+    ctx.notes.append("tie by translation: %s regenerated from obs.py and proved equal to the hand-written model (%s)" % (", ".join(funcs), ", ".join(tie_files)))
+    return ok_all
